@@ -470,7 +470,12 @@ func (r *run) protoRLK(round int) *proto {
 			} else {
 				pr.GenRelinearizationKey(r1agg, full, rlk)
 			}
-			return use(rlk)
+			ok, nz, err := use(rlk)
+			if !ok && os.Getenv("C14_DEBUG") != "" {
+				ok2, nz2, _ := use(rlk)
+				fmt.Fprintln(os.Stderr, "C14DEBUG round", round, "first", ok, nz, "again", ok2, nz2, "keynoise", rlwe.NoiseRelinearizationKey(rlk, r.ideal, r.p))
+			}
+			return ok, nz, err
 		},
 		baseline: func() int {
 			_, n, _ := use(rlwe.NewKeyGenerator(r.p).GenRelinearizationKeyNew(r.ideal, r.evkp...))
@@ -587,7 +592,7 @@ func (d *driver) replay(r *run, p *proto, steps []step, cfgName string, baseline
 
 // mismatches: aggregating shares with different tags must be refused with an error.
 func (d *driver) mismatches(r *run, p *proto, cfgName string) {
-	if p.mismatch == nil {
+	if p.mismatch == nil || r.n < 2 { // the refused share is attributed to a second party
 		return
 	}
 	d.prog++
@@ -668,6 +673,9 @@ func Main(args []string) int {
 				continue
 			}
 			k++
+			if only := os.Getenv("C14_ONLY"); only != "" && only != p.name+":"+c.name {
+				continue
+			}
 			base := 0
 			_, pan, _ := guarded(func() error { base = p.baseline(); return nil })
 			if pan {
